@@ -42,14 +42,15 @@ theorem fmtX_hash_pp {κ : Type} (ks : KeySys κ) (io : FloatIO) (m : GMap κ) (
 
 /-- **alt or not, object instances at level `L`** (letters h s p) -/
 theorem fmtX_obj_pp {κ : Type} (ks : KeySys κ) (io : FloatIO) (m : GMap κ) (L : Nat) (inh nested : Bool) (name : Str)
-    (es : List XEntry) (texts : List (Str × Str)) (hl : isHashLetter (getG ks m (.obj name es)).f.letter = true)
+    (es : List XEntry) (texts : List (Str × Str)) (hn : name ≠ []) (hl : isHashLetter (getG ks m (.obj name es)).f.letter = true)
     (hc : EntriesTextX ks io m (cfOfG ks (getG ks m (.obj name es))) ⟨true, (getG ks m (.obj name es)).f.alt, L + 1⟩ es texts) :
     fmtX ks io m ⟨!nested, inh, L⟩ (.obj name es) = .text (ppObj (getG ks m (.obj name es)).f L inh nested name texts) := by
+  have hne : name.isEmpty = false := by cases name <;> simp at hn ⊢
   have hp := fmtPairsX_of_entries ks io m (cfOfG ks (getG ks m (.obj name es)))
     (hashChildInd (getG ks m (.obj name es)).f ⟨!nested, inh, L⟩) es texts (by rw [hashChildInd_eq]; exact hc)
   have hna : (getG ks m (.obj name es)).f.letter ≠ 'a' := by
     intro h; rw [h] at hl; simp [isHashLetter] at hl
-  simp only [fmtX, hna, if_false, hl, Bool.not_true, Bool.false_eq_true, hp, hashOf, Res.bind, hashAssembleD_paren_pp, ppObj,
+  simp only [fmtX, hne, hna, if_false, hl, Bool.not_true, Bool.false_eq_true, hp, hashOf, Res.bind, hashAssembleD_paren_pp, ppObj,
     Ind.breaks, Ind.padding, newLine, Bool.not_not]
 
 end Pcore.Format
